@@ -715,7 +715,7 @@ func (c *Ctx) musxRun() map[string]*simpleVerdict {
 
 func init() {
 	register(&Rule{ID: "MUS.reference", Floor: 3,
-		Doc: "the template engine evaluated abstractly (NewMustacheTemplate, SetTemplate, EvaluateWithVariables) on templates printed from generated syntax trees (text with braces/quotes, variables, escaped variables, comments, sections and inverted sections in 8 spellings each, nested, empty, adjacent) × 19 variable maps (present, empty, white-space-only, absent, other key case, values needing escapes): the rendering equals the statement's semantics, is the same when repeated after other variable sets and leaves the instance unchanged; literal text exhaustively over {x, '{', '}', space} up to length 3 (4 in the thorough tier) alone, before and after a tag, between tags and as a section body is rendered verbatim (single braces at the start, in the middle and at the very end), and so is text whose last character before a tag or first character after one is a backslash, '$', '#', '/', '^', '!', a quote, '&' or '.' (variable, escaped variable, comment, opening and closing tags of sections and inverted sections), the tags staying tags; instances with default variables assigned before or after the template (keys in lower, upper and mixed case against the template's spelling), rendered with Evaluate() under both iteration orders of the map, follow the same semantics; 39 listed malformed templates and a generated family (tags never closed: cut off after the opening braces, after each operator including the comment's '!', after the name, after blanks, after half a closer, double and triple braces; mismatched brace counts; unclosed and unopened sections; each alone and after text and a complete tag) are rejected, also when submitted twice",
+		Doc: "the template engine evaluated abstractly (NewMustacheTemplate, SetTemplate, EvaluateWithVariables) on templates printed from generated syntax trees (text with braces/quotes, variables, escaped variables, comments, sections and inverted sections in 8 spellings each, nested, empty, adjacent) × 19 variable maps (present, empty, white-space-only, absent, other key case, values needing escapes): the rendering equals the statement's semantics, is the same when repeated after other variable sets and leaves the instance unchanged; literal text exhaustively over {x, '{', '}', space} up to length 3 (4 in the thorough tier) alone, before and after a tag, between tags and as a section body is rendered verbatim (single braces at the start, in the middle and at the very end), and so is text whose last character before a tag or first character after one is a backslash, '$', '#', '/', '^', '!', a quote, '&' or '.' (variable, escaped variable, comment, opening and closing tags of sections and inverted sections), the tags staying tags; instances with default variables assigned before or after the template (keys in lower, upper and mixed case against the template's spelling), rendered with Evaluate() under both iteration orders of the map, follow the same semantics; 39 listed malformed templates and a generated family (tags never closed: cut off after the opening braces, after each operator including the comment's '!', after the name, after blanks, after half a closer, double and triple braces; mismatched brace counts; unclosed and unopened sections; each alone and after text and a complete tag) are rejected, also when submitted twice; twelve words that other dialects reserve (else, this, end, each, with, if, unless, not, true, false, null, in) in three letter cases are ordinary names as variables, escaped variables and section names at top level and inside sections and inverted sections; every template with an escaped variable is rendered again with every range over a map reversed and rotated by one (Go fixes no order) on values in which several characters need escaping, and must give the same text",
 		Run: func(c *Ctx) []*Obligation {
 			o := newObl("MUS.reference")
 			res := c.musxRun()
